@@ -82,8 +82,9 @@ class Gen:
         if self._gen and r.random() < 0.22:
             if self._gen.startswith("await") and r.random() < 0.3:
                 # await of a REJECTED promise: the continuation is asyncRunner.onRejected → generator.nextThrow, i.e. the
-                # resume point completes with a throw (same curAsyncRunner bracket as onFulfilled)
-                return ["S", "YD", "T"], "await Promise.reject(new Error('t'));"
+                # resume point completes with a throw (same curAsyncRunner bracket as onFulfilled); RJ is a rejected promise made
+                # by the prelude: the await itself makes no call (a native call here could hit the depth limit)
+                return ["S", "YD", "T"], "await RJ;"
             return ["YD"], self._gen
         if c == "gop" and self.slots == 0:
             c = "gen" if d > 0 else "P"
@@ -325,7 +326,7 @@ def gen_history(rng, depth, ncalls=None, maxdepth=None, fault=None):
         mtoks.append(t)
         calls.append(c)
     decl = "".join("var g%d = (function*(){})(); g%d.next();\n" % (i, i) for i in range(1, g.slots + 1))
-    return {"max": mx, "prelude": "var WO = {wv:0};\n" + decl + "\n".join(g.prelude), "calls": calls, "natives": g.natives, "_model": mtoks}
+    return {"max": mx, "prelude": "var WO = {wv:0};\nvar RJ = Promise.reject(0);\n" + decl + "\n".join(g.prelude), "calls": calls, "natives": g.natives, "_model": mtoks}
 
 
 def model_line(h):
@@ -421,7 +422,7 @@ def regression_seeds():
     """The original failing inputs of the six repaired defects (also stored in corpus/C03/seeds.json); modelled ones
     carry `_model`.  They run first on every run."""
     def H(mx, mtoks, calls, prelude="", natives=None):
-        return {"max": mx, "prelude": "var WO={wv:0};\n" + prelude, "calls": calls, "natives": natives or {}, "_model": mtoks}
+        return {"max": mx, "prelude": "var WO={wv:0};\nvar RJ = Promise.reject(0);\n" + prelude, "calls": calls, "natives": natives or {}, "_model": mtoks}
     s = []
     # F1 stale-prg (e71ffae): interrupt inside a nested call of an outermost RunProgram, then a call from Go
     s.append(H(-1, [["RP", "1", "i", "Fc", "0", "P", "1"]], [{"api": "RP", "src": "(function(){ P(1); })();", "k": 1, "kind": "i"}]))
@@ -472,10 +473,10 @@ def regression_seeds():
         s.append(H(mx, [["RP", str(k), "i" if kind == "i" else "t"] + atok], [{"api": "RP", "src": asrc, "k": k, "kind": kind}]))
     # await of a rejected promise: the continuation is asyncRunner.onRejected → generator.nextThrow (caught / uncaught),
     # faults and stack overflow inside such a continuation
-    asrc2 = ("(async function(){ try { P(1); await Promise.reject(new Error('t')); P(2); } catch(e) { P(3); await 0; P(4); } "
+    asrc2 = ("(async function(){ try { P(1); await RJ; P(2); } catch(e) { P(3); await 0; P(4); } "
              "finally { P(6); } })(); P(5);")
     atok2 = ["S", "AC", "0", "Y", "1", "1", "S", "P", "1", "S", "S", "YD", "T", "P", "2", "S", "P", "3", "S", "YD", "P", "4", "P", "6", "P", "5"]
-    asrc3 = "(async function(){ P(1); await Promise.reject(new Error('t')); P(2); })(); P(5);"
+    asrc3 = "(async function(){ P(1); await RJ; P(2); })(); P(5);"
     atok3 = ["S", "AC", "0", "S", "P", "1", "S", "S", "YD", "T", "P", "2", "P", "5"]
     for k, kind, mx in ((0, "t", -1), (3, "i", -1), (3, "t", -1), (4, "o", -1), (0, "t", 1), (0, "t", 2)):
         s.append(H(mx, [["RP", str(k), "i" if kind == "i" else "t"] + atok2], [{"api": "RP", "src": asrc2, "k": k, "kind": kind}]))
@@ -496,6 +497,9 @@ def regression_seeds():
 
 
 WILD_SEEDS = [
+    # 917efcc (fixes/C10-interrupt-in-async-start.diff): an interrupt raised by a `then` getter reached through
+    # promiseResolve while an async function STARTS (asyncRunner.start → ar.step) must drop the marker frame too
+    {"max": -1, "prelude": "", "calls": [{"api": "RP", "src": "(async function(){ await {get then(){ P(1); }} })(); 1", "k": 1, "kind": "i"}, {"api": "RP", "src": "P(1); Promise.resolve(0).then(function(){ P(2); }); 1", "k": 0, "kind": "t"}], "natives": {}},
     # mutation round 2 (seeded/C03-m3, -m4): abort inside the continuation of an awaited async function; class body with
     # private names throwing in its own frame, uncaught and caught in the same function
     {"max": 40, "prelude": "function rec(){ rec(); }\nasync function inner(){ await null; rec(); }\nasync function outerCaller(){ await inner(); }", "calls": [{"api": "RP", "src": "outerCaller(); 1", "k": 0, "kind": "t"}], "natives": {}},
@@ -928,7 +932,7 @@ TIE_MODEL_OF = {
     "genNextThrow": "genThrow", "genDropMarkerOnPanic": "genNew (second pushCtx overflow)", "vmSuspend": "genLeave (no live records at a top-level yield)",
     "vmResume": "genEnterNext", "genObjInit": "genNew", "genObjNext": "genNext (state machine)", "genObjThrow": "genThrow", "genObjReturn": "genReturn",
     "asyncOnFulfilled": "asyncResumeCA (Vm.curAsync set; the deferred clear) around asyncResume", "asyncOnRejected": "asyncResumeCA around asyncResume whose resume point is followed by throw_ (await of a rejected promise)",
-    "asyncStart": "asyncNew / actEnter / actCall / actBack", "asyncStep": "asyncNew / asyncResume (await = queue the continuation; done / ex = settle the promise)",
+    "asyncStart": "asyncNew / actEnter / actCall / actBack (`entered = true` after ar.step since 917efcc: dropMarkerOnPanic also covers user code reached from ar.step; the model's awaits run no user code in ar.step)", "asyncStep": "asyncNew / asyncResume (await = queue the continuation; done / ex = settle the promise)",
 }
 
 
